@@ -46,14 +46,16 @@ CONSTANTS = {
          r"else if pattern\.starts_with\('%'\)\s*&&\s*!contains_like_pattern\(&pattern\[(\d+)\.\.\]\)\s*\{\s*return Ok\(Self::IEndsWithAscii", "int"),
         # `byte_substring`: which offset of the pair each bound is computed from / clamped to, and that
         # every computed bound goes through `check_char_boundary`
+        # (two accepted spellings of the positive-start bound: `(pair[0] + start).min(pair[1])` and the
+        #  overflow-safe `pair[0].checked_add(&start).map_or(pair[1], |o| o.min(pair[1]))`)
         ("SUBSTR_POS_BASE", S,
-         r"Ordering::Greater => check_char_boundary\(\(pair\[(\d+)\] \+ start\)\.min\(pair\[1\]\)\)\?,", "int"),
+         r"Ordering::Greater => check_char_boundary\(\s*\(?pair\[(\d+)\](?: \+ start\)\.min\(pair\[1\]\)|\s*\.checked_add\(&start\)\s*\.map_or\(pair\[1\], \|o\| o\.min\(pair\[1\]\)\),\s*)\)\?,", "int"),
         ("SUBSTR_POS_CLAMP", S,
-         r"Ordering::Greater => check_char_boundary\(\(pair\[0\] \+ start\)\.min\(pair\[(\d+)\]\)\)\?,\s*Ordering::Equal => pair\[0\],", "int"),
+         r"Ordering::Greater => check_char_boundary\(\s*\(?pair\[0\](?: \+ start\)|\s*\.checked_add\(&start\)\s*\.map_or\(pair\[1\], \|o\| o)\.min\(pair\[(\d+)\]\)\)?,?\s*\)\?,\s*Ordering::Equal => pair\[0\],", "int"),
         ("SUBSTR_NEG_BASE", S,
          r"Ordering::Less => check_char_boundary\(\(pair\[(\d+)\] \+ start\)\.max\(pair\[0\]\)\)\?,", "int"),
         ("SUBSTR_END_CLAMP", S,
-         r"Some\(length\) => check_char_boundary\(\(length \+ new_start\)\.min\(pair\[(\d+)\]\)\)\?,\s*None => pair\[1\],", "int"),
+         r"Some\(length\) => check_char_boundary\(\s*\(?length(?: \+ new_start\)|\s*\.checked_add\(&new_start\)\s*\.map_or\(pair\[1\], \|o\| o)\.min\(pair\[(\d+)\]\)\)?,?\s*\)\?,\s*None => pair\[1\],", "int"),
         # `utf8_bounds`: a negative start -k is the k-th character from the end
         ("SUBSTRC_NTH_BACK_ADJ", S,
          r"val\.char_indices\(\)\s*\.nth_back\(back - (\d+)\)\s*\.map_or\(0, \|\(offset, _\)\| offset\)", "int"),
